@@ -31,6 +31,8 @@ type c16Rec struct {
 	inFn bool
 	ctx  parser.ContextType
 	lit  string
+	// the question was not asked at this invocation (query schedules)
+	noFn, noCtx bool
 }
 
 func c16Builder(m Mode, src string, recs *[]c16Rec) *parser.Builder {
@@ -59,7 +61,16 @@ func c16BuilderSub(m Mode, src string, recs *[]c16Rec, sub bool) *parser.Builder
 			p.PopContext()
 		}
 		t := p.CurrentToken
-		*recs = append(*recs, c16Rec{'s', ref.OffsetOf(src, t.Start.Line, t.Start.Column), p.IsInFunction(), p.CurrentContext(), t.Literal})
+		if ask, fn, cx := c16Ask('s'); ask {
+			r := c16Rec{kind: 's', off: ref.OffsetOf(src, t.Start.Line, t.Start.Column), lit: t.Literal, noFn: !fn, noCtx: !cx}
+			if fn {
+				r.inFn = p.IsInFunction()
+			}
+			if cx {
+				r.ctx = p.CurrentContext()
+			}
+			*recs = append(*recs, r)
+		}
 		if c16Direct && t.Type == token.LBRACE {
 			return p.ParseBlockStatement()
 		}
@@ -76,7 +87,16 @@ func c16BuilderSub(m Mode, src string, recs *[]c16Rec, sub bool) *parser.Builder
 			p.PopContext()
 		}
 		t := p.CurrentToken
-		*recs = append(*recs, c16Rec{'e', ref.OffsetOf(src, t.Start.Line, t.Start.Column), p.IsInFunction(), p.CurrentContext(), t.Literal})
+		if ask, fn, cx := c16Ask('e'); ask {
+			r := c16Rec{kind: 'e', off: ref.OffsetOf(src, t.Start.Line, t.Start.Column), lit: t.Literal, noFn: !fn, noCtx: !cx}
+			if fn {
+				r.inFn = p.IsInFunction()
+			}
+			if cx {
+				r.ctx = p.CurrentContext()
+			}
+			*recs = append(*recs, r)
+		}
 		return next()
 	})
 	return pb
@@ -116,6 +136,40 @@ func c16Nest(src string, paths map[int]string, m Mode) (kind, detail string, inv
 // instead of next() (plugins that handle blocks do this); the context answers inside must be the same.
 var c16Direct bool
 
+// c16Subst: one lexeme per syntactic class, substituted for each token of each nested program.
+var c16Subst = []string{"a", "1", "(", ")", "{", "}", "[", "]", ";", ",", "=", "+", "++", ".", ":", "let", "function", "if", "else", "return", "while", "for"}
+
+// c16Sched: which interceptor invocations actually ask (an answer must not depend on which questions were
+// asked before). 0 = every invocation of both interceptors (default); 1 = expression interceptor only; 2 =
+// statement interceptor only; 3 = IsInFunction only / 4 = CurrentContext only (the other is not called);
+// 5, 6 = every second invocation (even / odd); 7 = every third.
+var c16Sched int
+var c16SchedN int
+
+var c16SchedNames = []string{"", "only the expression interceptor asks", "only the statement interceptor asks", "only IsInFunction is called", "only CurrentContext is called", "every second invocation asks (even)", "every second invocation asks (odd)", "every third invocation asks"}
+
+// c16Ask reports whether this invocation asks, and which of the two questions.
+func c16Ask(kind byte) (ask, fn, ctx bool) {
+	c16SchedN++
+	switch c16Sched {
+	case 1:
+		return kind == 'e', true, true
+	case 2:
+		return kind == 's', true, true
+	case 3:
+		return true, true, false
+	case 4:
+		return true, false, true
+	case 5:
+		return c16SchedN%2 == 0, true, true
+	case 6:
+		return c16SchedN%2 == 1, true, true
+	case 7:
+		return c16SchedN%3 == 0, true, true
+	}
+	return true, true, true
+}
+
 // c16PushPop: the interceptors use the public PushContext / PopContext themselves, balanced, before asking.
 var c16PushPop bool
 
@@ -127,6 +181,14 @@ func c16NestC(src string, paths map[int]string, m Mode) (kind, detail, class str
 		c16Direct = false
 		if k2 != "" {
 			return "direct-block-" + k2, "with a statement interceptor that calls ParseBlockStatement itself on '{': " + d2, c2, invocations, stacks
+		}
+	}
+	for sched := 1; kind == "" && sched < len(c16SchedNames); sched++ {
+		c16Sched, c16SchedN = sched, 0
+		k2, d2, c2, _, _ := c16NestSub(src, paths, m, false)
+		c16Sched = 0
+		if k2 != "" {
+			return "query-history-" + k2, "when " + c16SchedNames[sched] + ": " + d2, c2, invocations, stacks
 		}
 	}
 	if kind == "" {
@@ -161,10 +223,10 @@ func c16NestSub(src string, paths map[int]string, m Mode, sub bool) (kind, detai
 		}
 		stacks = append(stacks, path)
 		wantFn, wantCtx := c16Want(path)
-		if r.inFn != wantFn {
+		if !r.noFn && r.inFn != wantFn {
 			return "is-in-function", fmt.Sprintf("%c-interceptor at token %q (offset %d, nesting path %q): IsInFunction()=%v, want %v", r.kind, r.lit, r.off, path, r.inFn, wantFn), string(r.kind) + ":" + path, len(recs), stacks
 		}
-		if r.ctx != wantCtx {
+		if !r.noCtx && r.ctx != wantCtx {
 			return "current-context", fmt.Sprintf("%c-interceptor at token %q (offset %d, nesting path %q): CurrentContext()=%s, want %s", r.kind, r.lit, r.off, path, ctxName(r.ctx), ctxName(wantCtx)), string(r.kind) + ":" + path, len(recs), stacks
 		}
 	}
@@ -309,6 +371,27 @@ func c16Run(c *core.Ctx) {
 					c.Inc("final_state_inputs")
 					kd, d := c16Final(del, mi)
 					reportFinal(kd, d, strings.Fields(del), mi)
+				}
+			}
+		}
+		// and with one token replaced by each lexeme of a class alphabet (an early exit taken in the middle of a
+		// nesting, with well-formed text after it)
+		if k > 0 && len(toks) <= 40 {
+			for i := 0; i < len(toks); i++ {
+				for _, sub := range c16Subst {
+					if sub == toks[i].Text {
+						continue
+					}
+					rest := append([]gen.Tok{}, toks...)
+					rest[i].Text = sub
+					txt := gen.Render(rest, nil, nil)
+					c.Cur(txt)
+					for _, mi := range []int{0, 3} {
+						c.Inc("final_state_inputs")
+						c.Inc("final_state_substitutions")
+						kd, d := c16Final(txt, mi)
+						reportFinal(kd, d, strings.Fields(txt), mi)
+					}
 				}
 			}
 		}
